@@ -26,6 +26,8 @@ type memClient struct {
 	watchFaults *watchFaultPlan
 	// strip native Teardown / TeardownAndDestroy RPCs (old server)
 	noTeardown bool
+	// transport-level recorder for Watch streams (C13): dial outcome, every message handed to the client, stream end
+	watchRec func(call int, what string, msg *v1alpha1.WatchResponse, err error)
 }
 
 type vtMsg interface {
@@ -204,6 +206,7 @@ type memStream[T any, PT interface {
 	// fault injection: break the stream (client side sees Unavailable) after this many messages; <0 = never
 	breakAfter int
 	sent       int
+	onSend     func(m PT)
 }
 
 func newMemStream[T any, PT interface {
@@ -232,6 +235,10 @@ func (s *memStream[T, PT]) Send(m *T) error {
 	select {
 	case s.ch <- out:
 		s.sent++
+
+		if s.onSend != nil {
+			s.onSend(out)
+		}
 
 		return nil
 	case <-s.ctx.Done():
@@ -317,20 +324,43 @@ func (c *memClient) Watch(ctx context.Context, in *v1alpha1.WatchRequest, _ ...g
 
 	var dialErr error
 
+	call := -1
+
 	if c.watchFaults != nil {
+		c.watchFaults.mu.Lock()
+		call = c.watchFaults.calls
+		c.watchFaults.mu.Unlock()
+
 		breakAfter, dialErr = c.watchFaults.next()
 	}
 
 	if dialErr != nil {
+		if c.watchRec != nil {
+			c.watchRec(call, "dial-fail", nil, dialErr)
+		}
+
 		return nil, dialErr
+	}
+
+	if c.watchFaults != nil && call >= 0 && call < len(c.watchFaults.plan) && c.watchFaults.plan[call].Foreign {
+		// the bookmark was minted by another incarnation of the server: its cookie differs (the cookie is per process)
+		if bm := req.GetOptions().GetStartFromBookmark(); len(bm) > 0 {
+			bm[0] ^= 0xff
+		}
 	}
 
 	srv := c.srv
 	if c.watchFaults != nil && c.watchFaults.server != nil {
-		srv = c.watchFaults.server()
+		if alt := c.watchFaults.server(call); alt != nil {
+			srv = alt
+		}
 	}
 
 	s := newMemStream[v1alpha1.WatchResponse](ctx, breakAfter)
+
+	if c.watchRec != nil {
+		s.onSend = func(m *v1alpha1.WatchResponse) { c.watchRec(call, "msg", m, nil) }
+	}
 
 	go func() {
 		var err error
@@ -343,6 +373,10 @@ func (c *memClient) Watch(ctx context.Context, in *v1alpha1.WatchRequest, _ ...g
 			}
 
 			s.finish(err)
+
+			if c.watchRec != nil && s.ctx.Err() == nil || c.watchRec != nil && s.breakAfter >= 0 && s.sent >= s.breakAfter {
+				c.watchRec(call, "end", nil, s.err)
+			}
 		}()
 
 		err = srv.Watch(req, s)
@@ -357,12 +391,13 @@ type watchFaultPlan struct {
 	// per Watch call (in order): break the stream after N messages (-1 never), or fail the dial
 	plan   []watchFault
 	calls  int
-	server func() v1alpha1.StateServer
+	server func(call int) v1alpha1.StateServer
 }
 
 type watchFault struct {
 	BreakAfter int  `json:"break_after"`
 	FailDial   bool `json:"fail_dial,omitempty"`
+	Foreign    bool `json:"foreign,omitempty"` // this call reaches a different server incarnation (fresh state, other cookie)
 }
 
 func (p *watchFaultPlan) next() (int, error) {
